@@ -31,20 +31,26 @@ int main(int argc, char** argv) {
     unsigned long long seed = std::strtoull(argv[1], 0, 10); int nsys = std::atoi(argv[2]); int maxb = argc > 3 ? std::atoi(argv[3]) : 6;
     Rng r(seed);
     const Real h = 1e-3; const Real cf[4] = { 1.0 / 12, -8.0 / 12, 8.0 / 12, -1.0 / 12 }; const Real st[4] = { -2, -1, 1, 2 };
-    for (int k = 0; k < nsys; ++k) {
+    // k = -2, -1: fixed regression cases (fix a24f10ba; Coq witness Line_NDot_prefix_refuted): one LineOrientation / FreeLine body,
+    // quaternion mode, q = identity, u = (1,0,..), NDot applied to W = (0,1,..)
+    for (int k = -2; k < nsys; ++k) {
+        const bool reg = k < 0;
         RandSystem rs; int nb = r.I(1, maxb); int shape = r.I(0, 2);
         // every other system is built from a single mobilizer type so that a failure names its type
-        int only = (k % 2 == 0) ? (k / 2) % NMOBTYPES : -1;
-        try { if (k % 20 == 19) buildLone(rs, r, nb); else rs.build(r, nb, shape, only); } catch (const std::exception& e) { continue; }
+        int only = (k >= 0 && k % 2 == 0) ? (k / 2) % NMOBTYPES : -1;
+        if (reg) { only = k == -2 ? 13 : 14; nb = 1; }
+        try { if (reg) rs.build(r, nb, 0, only, 0, 0); else if (k % 20 == 19) buildLone(rs, r, nb); else rs.build(r, nb, shape, only); } catch (const std::exception& e) { continue; }
         State& s = rs.state; const SimbodyMatterSubsystem& m = rs.matter;
         for (int i = 0; i < s.getNQ(); ++i) s.updQ()[i] = r.U(0.1, 1.2) * (r.I(0, 1) ? 1 : -1);
         for (MobilizedBodyIndex b(1); b < m.getNumBodies(); ++b) if (m.isUsingQuaternion(s, b)) {
             int q0 = (int)m.getMobilizedBody(b).getFirstQIndex(s);
             Vec4 e(r.U(-1, 1), r.U(-1, 1), r.U(-1, 1), r.U(-1, 1)); if (e.norm() < 0.2) e = Vec4(1, 0, 0, 0); e = e / e.norm();
             for (int i = 0; i < 4; ++i) s.updQ()[q0 + i] = e[i]; }
+        if (reg) { s.updQ() = 0; s.updQ()[0] = 1; s.updU() = 0; s.updU()[0] = 1; }
         rs.sys.realize(s, Stage::Velocity);
         int nu = s.getNU(), nq = s.getNQ(), NB = m.getNumBodies();
         Vector W(nu), F(nq), UD(nu); for (int i = 0; i < nu; ++i) { W[i] = r.U(-1, 1); UD[i] = r.U(-1, 1); } for (int i = 0; i < nq; ++i) F[i] = r.U(-1, 1);
+        if (reg) { W = 0; W[1] = 1; }
         Vec3 pS = r.v3(0.6); MobilizedBodyIndex sb(r.I(0, NB - 1));
         // finite differences along the motion
         std::vector<Mat33> dR(NB, Mat33(0)); std::vector<Vec3> dp(NB, Vec3(0)); Vec3 dS(0); Vector dQdot(nq, 0.0), dNW(nq, 0.0), dNU(nq, 0.0);
